@@ -872,8 +872,16 @@ func polyToComplexNoCRT(coeffs []uint64, values FloatSlice, scale rlwe.Scale, lo
 		} else {
 			slots := 1 << logSlots
 
+			for i := 0; i < slots; i++ {
+				if values[i][1] == nil {
+					values[i][1] = new(big.Float)
+				}
+			}
+
+			// The imaginary part is set, not accumulated: values may hold the result of a previous call
+			values[0][1].SetInt64(0)
 			for i := 1; i < slots; i++ {
-				values[i][1].Sub(values[i][1], values[slots-i][0])
+				values[i][1].Neg(values[slots-i][0])
 			}
 		}
 
@@ -981,8 +989,16 @@ func polyToComplexCRT(poly ring.Poly, bigintCoeffs []*big.Int, values FloatSlice
 		} else {
 			// [X]/(X^N+1) to [X+X^-1]/(X^N+1)
 			slots := 1 << logSlots
+			for i := 0; i < slots; i++ {
+				if values[i][1] == nil {
+					values[i][1] = new(big.Float)
+				}
+			}
+
+			// The imaginary part is set, not accumulated: values may hold the result of a previous call
+			values[0][1].SetInt64(0)
 			for i := 1; i < slots; i++ {
-				values[i][1].Sub(values[i][1], values[slots-i][0])
+				values[i][1].Neg(values[slots-i][0])
 			}
 		}
 
